@@ -273,11 +273,15 @@ def rule_parsers_identity(repo, col):
                 bad.append(n)
         if isinstance(n, ast.Return) and n.value is not None and \
                 dotted(n.value) != p:
-            v = n.value
-            ok = isinstance(v, ast.Call) and isinstance(
-                v.func, ast.Attribute) and v.func.attr == 'decode'
-            if not ok:
-                bad.append(n)
+            vals = [n.value]
+            if isinstance(n.value, ast.IfExp):
+                vals = [n.value.body, n.value.orelse]
+            for v in vals:
+                ok = dotted(v) == p or (isinstance(v, ast.Call) and
+                                        isinstance(v.func, ast.Attribute)
+                                        and v.func.attr == 'decode')
+                if not ok:
+                    bad.append(n)
     col.check(not bad, rule, TABLE, 'general_parser', 'identity-on-values',
               bad[0] if bad else f, 'values other than bytes pass through '
               'unchanged', 'metadata values are converted on load (%s): '
@@ -604,27 +608,41 @@ def rule_pad_agreement(repo, col):
     rule = 'OR-PAD'
     f = repo.func(PARSE, 'MetadataMap.from_file')
     found = False
-    for n in ast.walk(f):
-        if isinstance(n, ast.If) and isinstance(n.test, ast.Compare) and \
-                isinstance(n.test.ops[0], ast.Lt):
-            a, b = unparse(n.test.left), unparse(n.test.comparators[0])
-            if not (a.startswith('len(') and b.startswith('len(')):
+    assigns = local_assignments(f)
+    for c in ast.walk(f):
+        if isinstance(c, ast.Call) and isinstance(c.func, ast.Attribute) and \
+                c.func.attr == 'extend' and c.args and isinstance(
+                    c.args[0], ast.BinOp) and isinstance(c.args[0].op,
+                                                         ast.Mult):
+            row = dotted(c.func.value)
+            e = c.args[0].right
+            if isinstance(e, ast.Name) and e.id in assigns and \
+                    len(assigns[e.id]) == 1 and assigns[e.id][0][0] is not \
+                    None:
+                e = assigns[e.id][0][0]
+            if not (isinstance(e, ast.BinOp) and isinstance(e.op, ast.Sub)
+                    and isinstance(e.left, ast.Call) and
+                    call_name(e.left) == 'len' and
+                    isinstance(e.right, ast.Call) and
+                    call_name(e.right) == 'len'):
                 continue
-            for c in ast.walk(n):
-                if isinstance(c, ast.Call) and isinstance(
-                        c.func, ast.Attribute) and c.func.attr == 'extend' \
-                        and c.args and isinstance(c.args[0], ast.BinOp) and \
-                        isinstance(c.args[0].op, ast.Mult):
-                    found = True
-                    cnt = unparse(c.args[0].right).replace(' ', '')
-                    want = ('%s-%s' % (b, a)).replace(' ', '')
-                    col.check(cnt in (want, '(%s)' % want), rule, PARSE,
-                              'MetadataMap.from_file', 'pad-count', c,
-                              'a row shorter than the header is padded by '
-                              'the difference of the two lengths',
-                              'a short row is padded by %s cells although '
-                              'it is %s cells short: the last column(s) of '
-                              'short rows are lost' % (cnt, want))
+            found = True
+            la, ra = e.left.args[0], e.right.args[0]
+            ok = dotted(la) == 'header' and dotted(ra) == row
+            sliced = isinstance(la, ast.Subscript) or isinstance(
+                ra, ast.Subscript)
+            if ok:
+                col.ok(rule, PARSE, 'MetadataMap.from_file', 'pad-count', c,
+                       'a row shorter than the header is padded by the '
+                       'difference of the two lengths')
+            elif sliced:
+                col.bad(rule, PARSE, 'MetadataMap.from_file', 'pad-count', c,
+                        'a short row is padded by %s cells, not by '
+                        'len(header) - len(row): the last column(s) of '
+                        'short rows are lost' % unparse(e))
+            else:
+                col.unknown(rule, PARSE, 'MetadataMap.from_file',
+                            'pad-count', c, 'pad count not recognised')
     if not found:
         col.unknown(rule, PARSE, 'MetadataMap.from_file', 'pad-count', f,
                     'padding idiom not recognised')
